@@ -253,6 +253,11 @@ func (env *SpecEnv) binderSort(tn string) (*Sort, types.Type) {
 	case "Bytes":
 		vc.needBytes = true
 		return &Sort{K: SOpaque, Name: "Bytes"}, nil
+	case "BytesMap":
+		// an abstract key/value store (one row of a ghost (Array K (Array Bytes Bytes)))
+		vc.needBytes = true
+		bs := &Sort{K: SOpaque, Name: "Bytes"}
+		return sortArray(bs, bs), nil
 	case "float64":
 		return vc.sortOf(types.Typ[types.Float64]), types.Typ[types.Float64]
 	}
